@@ -40,19 +40,24 @@ class SrcErr(RuntimeError):
     pass
 
 
+class SdErr(RuntimeError):
+    """raised by the source's state_dict() at the chosen position"""
+
+
 _SRC_CLS = None
 
 
-def Src(items, term, delay=0.0):
+def Src(items, term, delay=0.0, sfail=None):
     """Instrumented source node: logs enter/leave of next(), counts concurrent entries and results handed out."""
     global _SRC_CLS
     if _SRC_CLS is None:
         from torchdata.nodes import BaseNode
 
         class _Src(BaseNode):
-            def __init__(self, items, term, delay):
+            def __init__(self, items, term, delay, sfail=None):
                 super().__init__()
                 self.items, self.term, self.delay = list(items), term, delay
+                self.sfail = sfail  # state_dict() raises whenever the source is at this position
                 self.pos = 0
                 self.inside = 0
                 self.max_inside = 0
@@ -90,10 +95,15 @@ def Src(items, term, delay=0.0):
                     self.inside -= 1
 
             def get_state(self):
+                if self.sfail is not None and self.pos == self.sfail:
+                    s = vsched.CUR
+                    if s is not None and not s.closed:
+                        s.ev("src", "sdfail", id(s.me()))
+                    raise SdErr("state_dict failed at position %d" % self.pos)
                 return {"pos": self.pos}
 
         _SRC_CLS = _Src
-    return _SRC_CLS(items, term, delay)
+    return _SRC_CLS(items, term, delay, sfail)
 
 
 def ref_results(case, base=0) -> List[tuple]:
@@ -311,6 +321,15 @@ def translate(events: List[tuple], gens: List[Gen]):
             if gi is None:
                 bad.append("source driven by an unknown thread: %r" % (e,))
                 continue
+            if e[2] == "sdfail":
+                # the reader's next(source) + source.state_dict() is ONE interaction with user code (model action rLeave): a
+                # state_dict() that raises turns the result of that interaction into the error terminal
+                for k in range(len(trace) - 1, -1, -1):
+                    if trace[k][0] == "r%d" % gi:
+                        if trace[k][1] == "leave":
+                            trace[k] = ["r%d" % gi, "leave", 2, 0]
+                        break
+                continue
             if gi != cur and 0 <= cur < len(gens) and gens[gi].src is gens[cur].src:
                 stale = True
             trace.append(["r%d" % gi, "enter"] if e[2] == "enter" else ["r%d" % gi, "leave", e[4], e[5]])
@@ -366,11 +385,24 @@ def translate(events: List[tuple], gens: List[Gen]):
     return trace, stale, bad
 
 
+def eff_stream(case, base=0):
+    """(items, terminal, start_err) the protocol sees from source position `base`: a state_dict() failure at a position where
+    a snapshot is due replaces the item just pulled by the error (the stream is items[:p-1] + error); at position `base`
+    itself it is the start-up failure"""
+    items, term, p, f = case["items"], case["term"], case.get("sfail"), case["f"]
+    if p is not None and p == base:
+        return [], term, True
+    if p is not None and f > 0 and base < p <= len(items) and (p - base) % f == 0:
+        return list(items[base:p - 1]), "error", False
+    return list(items[base:]), term, False
+
+
 def lean_request(case, gens: List[Gen], trace) -> Dict[str, Any]:
-    return {"m": "pf", "cfg": {"pf": case["pf"], "f": case["f"]},
-            "gens": [{"src": list(case["items"][g.base:]), "term": case["term"], "base": g.base, "start_err": False}
-                     for g in gens],
-            "trace": trace}
+    out = []
+    for g in gens:
+        src, term, serr = eff_stream(case, g.base)
+        out.append({"src": src, "term": term, "base": g.base, "start_err": serr})
+    return {"m": "pf", "cfg": {"pf": case["pf"], "f": case["f"]}, "gens": out, "trace": trace}
 
 
 # --------------------------------------------------------------------------------------------------------------
@@ -400,6 +432,8 @@ class Run:
 def _err_kind(e: BaseException) -> str:
     if isinstance(e, SrcErr):
         return "src"
+    if isinstance(e, SdErr):
+        return "sd"
     return type(e).__name__
 
 
@@ -412,7 +446,7 @@ def run_case(case, probe_held=False, check_release=False, op_budget=60.0) -> Run
     delay = float(case.get("delay", 0.0))
     with Instr() as instr:
         with Session(sc["seed"], adversarial=bool(sc.get("adv")), log=True, op_budget=op_budget) as s:
-            src = Src(case["items"], case["term"], delay)
+            src = Src(case["items"], case["term"], delay, case.get("sfail"))
             r.srcs.append(src)
             node = Prefetcher(src, prefetch_factor=case["pf"], snapshot_frequency=case["f"])
             st = {"ev_i": 0, "taken": {}, "rets": 0}
@@ -481,8 +515,19 @@ def run_case(case, probe_held=False, check_release=False, op_budget=60.0) -> Run
             gc.disable()
             try:
                 s.begin_op()
-                node.reset()
-                for op in case["hist"]:
+                hist = case["hist"]
+                try:
+                    node.reset()
+                except SdErr as e:
+                    # state_dict() failed in the reader's start-up: the constructor re-raises the StartupExceptionWrapper
+                    r.obs.append(("reset-error", _err_kind(e)))
+                    hist = []
+                    del node
+                    node = None
+                    settle()
+                    cur_live["on"] = False
+                    release_check("failed reset()")
+                for op in hist:
                     s.begin_op()
                     if op == "next":
                         try:
@@ -513,7 +558,7 @@ def run_case(case, probe_held=False, check_release=False, op_budget=60.0) -> Run
                         sd = copy.deepcopy(r.sds[-1]) if r.sds else None
                         del node
                         settle()
-                        src = Src(case["items"], case["term"], delay)
+                        src = Src(case["items"], case["term"], delay, case.get("sfail"))
                         r.srcs.append(src)
                         node = Prefetcher(src, prefetch_factor=case["pf"], snapshot_frequency=case["f"])
                         try:
@@ -532,7 +577,7 @@ def run_case(case, probe_held=False, check_release=False, op_budget=60.0) -> Run
                         r.obs.append(("del",))
                         release_check("del")
                         break
-                if check_release and node is not None and r.obs and r.obs[-1] in (("s",), ("e", "src")):
+                if check_release and node is not None and r.obs and r.obs[-1] in (("s",), ("e", "src"), ("e", "sd")):
                     cur_live["on"] = False
                     release_check("exhaustion")
             except VHang as h:
@@ -648,9 +693,16 @@ def run_kt(ctx: Ctx, n: Optional[int] = None):
 def check_obs(case, obs) -> List[Tuple[str, str]]:
     """C04 / C06 / C11 oracle on the observation list of a history: every next() returns the next item of the reference
     stream of the current lineage (reset -> position 0, reload -> position of the remembered state_dict)."""
-    items, n = case["items"], len(case["items"])
-    term = ("e", "src") if case["term"] == "error" else ("s",)
     out: List[Tuple[str, str]] = []
+    sfail = case.get("sfail")
+    if obs and obs[0][0] == "reset-error" or sfail == 0:
+        if not (sfail == 0 and [tuple(o) for o in obs] == [("reset-error", "sd")]):
+            out.append(("C11:wrong_terminal", f"initial reset(): expected {'the state_dict error' if sfail == 0 else 'success'}, got {obs[:1]}"))
+        return out
+    items, tk, _ = eff_stream(case, 0)   # bases of later generations are multiples of f, so due-ness is the same
+    n = len(items)
+    term = (("e", "sd") if sfail is not None and tk == "error" and n < len(case["items"]) and n == sfail - 1 and
+            (case["f"] > 0 and sfail % case["f"] == 0) else (("e", "src") if tk == "error" else ("s",)))
     pos, ended, sd_pos, after_reload = 0, False, None, False
     gbase, sd_snap = 0, 0
     oi = 0
